@@ -87,19 +87,19 @@ import (
 // -------------------------------------------------------------------------------------
 
 type c28Req struct {
-	Index     int               `json:"index"`
-	Proto     string            `json:"proto"`    // "http" | "grpc"
-	Listener  string            `json:"listener"` // "incoming" | "peer" (http only)
-	Raw       []byte            `json:"raw,omitempty"`
-	HalfClose bool              `json:"half_close,omitempty"` // close the write side after sending (declared length > body)
-	Method    string            `json:"method,omitempty"`     // grpc full method
-	MD        map[string]string `json:"md,omitempty"`
-	Payload   []byte            `json:"payload,omitempty"`
-	Gzip      bool              `json:"gzip,omitempty"` // grpc message compression
-	WatchdogMs int              `json:"watchdog_ms,omitempty"` // 0 = the batch's
-	BodyLen   int               `json:"-"`              // parent only: len(Raw) / len(Payload) before the parent trimmed them
-	Class     string            `json:"class"`          // route / content / encoding / body class
-	Desc      string            `json:"desc"`
+	Index      int               `json:"index"`
+	Proto      string            `json:"proto"`    // "http" | "grpc"
+	Listener   string            `json:"listener"` // "incoming" | "peer" (http only)
+	Raw        []byte            `json:"raw,omitempty"`
+	HalfClose  bool              `json:"half_close,omitempty"` // close the write side after sending (declared length > body)
+	Method     string            `json:"method,omitempty"`     // grpc full method
+	MD         map[string]string `json:"md,omitempty"`
+	Payload    []byte            `json:"payload,omitempty"`
+	Gzip       bool              `json:"gzip,omitempty"`        // grpc message compression
+	WatchdogMs int               `json:"watchdog_ms,omitempty"` // 0 = the batch's
+	BodyLen    int               `json:"-"`                     // parent only: len(Raw) / len(Payload) before the parent trimmed them
+	Class      string            `json:"class"`                 // route / content / encoding / body class
+	Desc       string            `json:"desc"`
 }
 
 type c28Profile struct {
@@ -110,10 +110,10 @@ type c28Profile struct {
 }
 
 type c28Batch struct {
-	Scale      int         `json:"scale"`       // 16 quick, 1 thorough: stack limit = 1e9/Scale, extreme inputs sized limit/Scale
-	WatchdogMs int         `json:"watchdog_ms"` // per request
-	Profile    c28Profile  `json:"profile"`
-	Requests   []c28Req    `json:"requests"`
+	Scale      int        `json:"scale"`       // 16 quick, 1 thorough: stack limit = 1e9/Scale, extreme inputs sized limit/Scale
+	WatchdogMs int        `json:"watchdog_ms"` // per request
+	Profile    c28Profile `json:"profile"`
+	Requests   []c28Req   `json:"requests"`
 }
 
 const (
